@@ -269,11 +269,14 @@ impl<F: Write + Seek> MiniAllocator<F> {
         let minifat_entries_per_sector = self.directory.sector_len() / 4;
         if self.minifat_start_sector == consts::END_OF_CHAIN {
             debug_assert!(self.minifat.is_empty());
-            self.minifat_start_sector =
-                self.directory.begin_chain(SectorInit::Fat)?;
+            // Only remember the new MiniFAT chain once the header refers to
+            // it; otherwise, if writing the header fails, a retry would skip
+            // this step and the file would never say where the MiniFAT is.
+            let start_sector = self.directory.begin_chain(SectorInit::Fat)?;
             let mut header = self.directory.seek_within_header(60)?;
-            header.write_le_u32(self.minifat_start_sector)?;
+            header.write_le_u32(start_sector)?;
             header.write_le_u32(1)?;
+            self.minifat_start_sector = start_sector;
         } else {
             // Trailing free entries are dropped from `self.minifat`, but the
             // MiniFAT chain is never shrunk, so it may already have room.
